@@ -342,6 +342,45 @@ def oracle_config(built, case, o, req):
     return bad
 
 
+def shrink_config_case(case, sig):
+    import copy
+
+    def variants(c):
+        p, m = c['reqs'][0]
+        for q in c02.path_variants(p):
+            yield dict(c, reqs=[(q, m)])
+        for name in list(c['sections']):
+            new = copy.deepcopy(c['sections'])
+            del new[name]
+            yield dict(c, sections=new)
+        for name, conf in c['sections'].items():
+            for k in conf:
+                new = copy.deepcopy(c['sections'])
+                del new[name][k]
+                yield dict(c, sections=new)
+        for k in c['glob']:
+            yield dict(c, glob={x: v for x, v in c['glob'].items() if x != k})
+        for t in c02.tree_variants(c['tree']):
+            yield dict(c, tree=t)
+        if c.get('ini'):
+            yield dict(c, ini=False)
+
+    def messages(c):
+        built, runner, obs = run_config_case(c)
+        return [w for w, s2 in oracle_config(built, c, obs[0], None) if s2 == sig]
+
+    def fails(c):
+        return bool(messages(c))
+    small = c02.shrink_generic(dict(case, reqs=case['reqs'][:1]), variants, fails)
+    try:
+        g = dict(small, tree=c02.gc_tree(small['tree']))
+        if fails(g):
+            small = g
+    except Exception:
+        pass
+    return small, (messages(small) or [None])[0]
+
+
 # ----------------------------------------------------------------------------------------------
 # model side for config cases
 # ----------------------------------------------------------------------------------------------
@@ -426,7 +465,7 @@ def check_config_cases(ctx, cases, compare_model=True):
             ctx.count('conf:keys_effective:%d' % min(on_path, 6))
             ctx.count('conf:tools_ran:%d' % len(o['tools_ran']))
             for what, sig in oracle_config(built, case, o, None):
-                ctx.oracle_fail(single, what, sig)
+                c02.report_failure(ctx, single, what, sig, shrink_config_case)
             pi = o['path_info'] if o['path_info'] is not None else p
             line = ' '.join(['conf', case['kind'], T.enc_text(m.upper()), root, na, nodes, secs, glob, T.enc_text(pi)])
             pending.append((single, o, line))
